@@ -921,6 +921,19 @@ Definition tr_ch_FindInt32 (key : Z) (c_hashRing : (list (Z * go_endpoint_Endpoi
     (fun index : Z =>
     if (go_in_range c_sortedKeys index) then (Return ((go_map_get c_hashRing (go_nth c_sortedKeys index 0) (Build_go_endpoint_Endpoint (@nil N) 0 0 0 0 0 0 0 0 (@nil N) (@nil N) (@nil N) (@nil N) (@nil N))), true)) else Panic)) else Panic.
 
+(* tars/util/rtimer/timewheel.go: func TimeWheel.After, statements "^" .. "pos = (tw.currPos + pos) % len(tw.timeWheel)" *)
+Definition tr_tw_After_pos (timeout : Z) (tw_t : Z) (tw_maxT : Z) (tw_currPos : Z) (wheel_size : Z) : ctl Z unit :=
+  if (tw_maxT <=? timeout)
+    then Panic
+    else if (negb (tw_t =? 0)) then (let pos := (wrapS 64 (Z.quot timeout tw_t)) in
+    bindc (if (0 <? pos)
+      then let pos := (wrapS 64 (pos - 1)) in
+        Next pos
+      else Next pos)
+    (fun pos : Z =>
+    if (negb (wheel_size =? 0)) then (let pos := (Z.rem (wrapS 64 (tw_currPos + pos)) wheel_size) in
+    Next pos) else Panic)) else Panic.
+
 (* struct github.com/TarsCloud/TarsGo/tars/protocol/res/endpointf.EndpointF *)
 Record go_endpointf_EndpointF := { go_endpointf_EndpointF_Host : (list N);
   go_endpointf_EndpointF_Port : Z;
